@@ -33,6 +33,10 @@ DESCRIBE = {
 }
 
 
+# statement forms of the generator that get their own key dimension (index in gen.go selectForms)
+FORMS = {("text_select", "form4"): "leading-comment"}
+
+
 def classify(x, dec, o):
     """-> list of (what, text) for one exchange; [] = agrees with the table."""
     out = []
@@ -58,7 +62,13 @@ def classify(x, dec, o):
             out.append(("overridden-unexpectedly", "sent %s, backend saw %s (list %s, override %s, class %s)" % (
                 sent, cons, dec["list"], override, x["sel"])))
         elif o["wf"] and not (o["bytes_same"] and o["hdr_same"]):
-            out.append(("altered-without-override", "hdr_diff=%s field_diff=%s" % (o.get("hdr_diff"), o.get("diff"))))
+            if sent == override and not o.get("diff") and o["hdr_same"]:
+                # field-wise equal but other bytes: the frame went through the override path (re-encoded)
+                # although it must not; the level written happens to equal the one sent
+                out.append(("overridden-unexpectedly", "sent %s = override; the frame was re-encoded (list %s, class %s)" % (
+                    sent, dec["list"], x["sel"])))
+            else:
+                out.append(("altered-without-override", "hdr_diff=%s field_diff=%s" % (o.get("hdr_diff"), o.get("diff"))))
         return out
     # verdict override, or open and the proxy chose to override
     if o["wf"] or cons:
@@ -156,7 +166,7 @@ def run(ctx):
     for k in sorted(plan):
         x, d = plan[k]
         o = obs[k]
-        dims = wc.dims_of(x, {"verdict": d["verdict"]})
+        dims = wc.dims_of(x, {"verdict": d["verdict"], "form": FORMS.get((x["sel"], o.get("form")), "plain")})
         if o["st"] in ("generr", "timeout", "noconn", "rejected"):
             continue
         bad = classify(x, d, o)
@@ -178,7 +188,7 @@ def run(ctx):
                                                 "request": x, "expected": {"verdict": d["verdict"], "consistency_at_backend": d["exp_cons"]},
                                                 "observed": o}))
     primary = ["op", "ver"]
-    minor = ["sel", "tracing", "payload", "beta", "compressed", "comp"]
+    minor = ["sel", "form", "tracing", "payload", "beta", "compressed", "comp"]
     keys = wc.report(ctx, "c12", failures, passing, primary, minor, DESCRIBE)
 
     infra = wc.infra_failures(obs)
